@@ -42,6 +42,13 @@ type RunSpec struct {
 	Output      *ui.Output       // nil -> discard
 	Ctx         context.Context  // nil -> Background
 	Trigger     *api.Trigger     // non-nil: use this trigger instead of building one
+	// Scenarios: non-nil: the registry (holding ScenarioName) to run from, so that several runs of
+	// one process use the same registered scenario like several `f1 run` invocations of one binary's
+	// F1 instance do; nil: a fresh registry holding ScenarioFn.
+	Scenarios *scenarios.Scenarios
+	// LogFilePath: non-empty: the run is NOT verbose and the scenario log goes to this path
+	// (LOG_FILE_PATH); a path that cannot be opened makes the run fall back to its output logger.
+	LogFilePath string
 }
 
 type RunOutcome struct {
@@ -119,8 +126,8 @@ var _ = pflag.ErrHelp
 
 const ScenarioName = "verif_scenario"
 
-// Execute performs the run. Verbose is forced on so that no scenario log file
-// is ever created; output goes to spec.Output (discarded by default).
+// Execute performs the run. Verbose is on unless spec.LogFilePath is set, so that no scenario
+// log file is created by default; output goes to spec.Output (discarded by default).
 func Execute(spec *RunSpec) (*RunOutcome, error) {
 	out := spec.Output
 	if out == nil {
@@ -145,18 +152,20 @@ func Execute(spec *RunSpec) (*RunOutcome, error) {
 		opts.IgnoreDropped = trig.Options.IgnoreDropped
 	}
 	opts.Scenario = ScenarioName
-	opts.Verbose = true
+	opts.Verbose = spec.LogFilePath == ""
 	m := spec.Metrics
 	if m == nil {
 		m = metrics.NewInstance(prometheus.NewRegistry(), true, nil)
 	}
-	sc := scenarios.New()
-	sc.Add(&scenarios.Scenario{Name: ScenarioName, ScenarioFn: spec.ScenarioFn})
+	sc := spec.Scenarios
+	if sc == nil {
+		sc = NewScenarios(spec.ScenarioFn)
+	}
 	wait := spec.WaitTimeout
 	if wait == 0 {
 		wait = 10 * time.Second
 	}
-	r, err := run.NewRun(opts, sc, trig, wait, envsettings.Settings{}, m, out)
+	r, err := run.NewRun(opts, sc, trig, wait, envsettings.Settings{Log: envsettings.Log{FilePath: spec.LogFilePath}}, m, out)
 	if err != nil {
 		return nil, fmt.Errorf("new run: %w", err)
 	}
@@ -169,6 +178,13 @@ func Execute(spec *RunSpec) (*RunOutcome, error) {
 		return nil, fmt.Errorf("do: %w", err)
 	}
 	return &RunOutcome{Result: res, Metrics: m, Trigger: trig, Opts: opts}, nil
+}
+
+// NewScenarios returns a registry holding fn under ScenarioName.
+func NewScenarios(fn f1testing.ScenarioFn) *scenarios.Scenarios {
+	sc := scenarios.New()
+	sc.Add(&scenarios.Scenario{Name: ScenarioName, ScenarioFn: fn})
+	return sc
 }
 
 // MetricCounts gathers the registry and returns, for the iteration family,
